@@ -11,6 +11,7 @@ RULE = ("every frame handed to the simulated transport in the C12 workload (size
         "reported; the schedule decides only which datagram sequences get assembled; "
         "distinct = distinct event-log digests; sterile frames are checked in the "
         "sync-group simulations (C18/C21/C30)")
+RULE += '; since the 4th session frames are also taken from a packet before its last datagram is in, and a packet is assembled again after its sterile copy (same frame expected)'
 COMPONENTS = {
     "real": ["ebpfcat.ethercat.Packet.append/assemble", "EtherCat.sendloop batching"],
     "stub": ["event loop", "socket", "wire", "terminals", "independent frame parser (oracle)"]}
